@@ -210,7 +210,8 @@ int main(int argc, char **argv)
         else if (!strcmp(argv[i], "--nconfigs")) { printf("%d\n", nshards); return 0; }
         else { fprintf(stderr, "bad arg %s\n", argv[i]); return 2; }
     }
-    if (!prop || strcmp(prop, "C06")) { fprintf(stderr, "c06: property not served\n"); return 2; }
+    if (!prop || (strcmp(prop, "C06") && strcmp(prop, "C20"))) { fprintf(stderr, "c06: property not served\n"); return 2; }
+    sx_only_abort = !strcmp(prop, "C20");
     count_scenarios();
     scn = SCN;
     if (replay) {
@@ -240,10 +241,10 @@ int main(int argc, char **argv)
         if (deadline > 0 && now() - t0 > deadline) { exhaustive = 0; break; }
     }
     printf("{\"world\":\"c06\",\"config\":%d,\"config_desc\":\"shard %d of %d over %ld scenarios (2 threads: programs up to length %d x %d over 6 operations x 4 reference configurations; 3 and 4 threads: see DESIGN)\","
-           "\"property\":\"C06\",\"thorough\":%d,\"scenarios\":%lu,\"states\":%lu,\"transitions\":%lu,\"executions\":%lu,\"complete_executions\":%lu,\"pruned_executions\":%lu,"
+           "\"property\":\"%s\",\"thorough\":%d,\"scenarios\":%lu,\"states\":%lu,\"transitions\":%lu,\"executions\":%lu,\"complete_executions\":%lu,\"pruned_executions\":%lu,"
            "\"nontrivial_states\":%lu,\"max_depth\":%lu,\"closure\":%s,\"wall_s\":%.3f,"
            "\"counters\":{\"scenarios_with_more_than_one_outcome\":%lu,\"scenarios_where_a_spinning_thread_was_blocked\":%lu,\"atomic_ops_weaker_than_seq_cst_by_scheduled_threads\":%lu,\"yield_steps\":%lu,\"executions_hitting_the_step_cap\":%lu},\"samples\":[",
-           shard, shard, nshards, ntotal, LA, LB, thorough, scen, tot_states, tot_trans, tot_exec, tot_complete, tot_pruned, tot_states, maxdepth, exhaustive ? "true" : "false", now() - t0,
+           shard, shard, nshards, ntotal, LA, LB, prop, thorough, scen, tot_states, tot_trans, tot_exec, tot_complete, tot_pruned, tot_states, maxdepth, exhaustive ? "true" : "false", now() - t0,
            multi_outcome, contended, nonseq, yields, capped);
     for (i = 0; i < nsamples; i++) { if (i) printf(","); jstr(stdout, samples[i]); }
     printf("],\"violations\":[");
